@@ -870,7 +870,7 @@ class Sem:
             term = mk("r", idx)
         for i, a in enumerate(args):
             if a[0] == "ptr" and a[3]:
-                if a[1][0] == "root" and self.stable_roots and a[1][1][0] in ("param", "upvar"):
+                if a[1][0] == "root" and self.stable_roots and _base(a[1][1])[0] in ("param", "upvar"):
                     continue
                 if a[1][0] == "root" and st.inloop:
                     self._heap_in_loop = True
@@ -1301,6 +1301,12 @@ class Sem:
         if T is None:
             return None
         return self._cases(fr, st, x, RESULT, T, site)
+
+
+def _base(t):
+    while t[0] in ("field", "downcast", "deref"):
+        t = t[1]
+    return t
 
 
 def _xkey(path):
